@@ -57,7 +57,17 @@ func serveMain(args []string) {
 	var parkMu sync.Mutex
 	parkRules := map[string]bool{}       // "point id" or "point *"
 	parked := map[string]chan struct{}{} // "point id" -> release channel
+	// schedule points of the connection event loops ("cxn.*"): recorded per client id, in the order reported
+	var cxnMu sync.Mutex
+	cxnLog := map[int64][]string{}
+	cxnSent := map[int64]int{}
 	redisemu.VerifSetPointCallback(func(name string, id int64) {
+		if strings.HasPrefix(name, "cxn.") {
+			cxnMu.Lock()
+			cxnLog[id] = append(cxnLog[id], name[4:])
+			cxnMu.Unlock()
+			return
+		}
 		if strings.HasPrefix(name, "block.") || strings.HasPrefix(name, "exec.") {
 			key := fmt.Sprintf("%s %d", name, id)
 			parkMu.Lock()
@@ -162,6 +172,20 @@ func serveMain(args []string) {
 			eng.Start()
 			engs[e] = eng
 			fmt.Fprintf(out, "STARTED %d\n", p)
+		case "CXNLOG": // the recorded connection-loop labels per client id (JSON)
+			// every connection that has reported since the last request, with its WHOLE sequence (a dispatcher
+			// goroutine may report after its connection has terminated and been fetched)
+			cxnMu.Lock()
+			m := map[string][]string{}
+			for id, l := range cxnLog {
+				if len(l) > cxnSent[id] {
+					m[strconv.FormatInt(id, 10)] = append([]string{}, l...)
+					cxnSent[id] = len(l)
+				}
+			}
+			cxnMu.Unlock()
+			b, _ := json.Marshal(m)
+			fmt.Fprintln(out, string(b))
 		case "CRASHCOPY": // CRASHCOPY <dir>|off
 			if f[1] == "off" {
 				crashDir = ""
